@@ -180,6 +180,70 @@ fn outcome_of(res_part: &str) -> &str {
     res_part.split(" w=").next().unwrap_or("")
 }
 
+// ================================================================ history independence
+
+/// **What a call returns does not depend on the calls before it** (C12 "whatever happened in
+/// earlier calls", C06 "after any sequence of earlier calls", C13 "determined by what the
+/// transport did alone").  For every call of a history whose predecessors all ran to completion
+/// on a transport that took their writes and stayed open, the same call – the same request, the
+/// same read events it consumed – is made on a *fresh* client that was connected with the same
+/// unit and has made the same number of (trivial) calls before, so that it stamps the same
+/// transaction id.  Result and transmitted bytes must be the same.  No model is involved: the
+/// implementation is compared with itself.
+pub fn mon_history_independence(out: &mut Out, l: &str, r: &str) {
+    let (head, ops) = ops_of(l);
+    if head[0] != "cli" || head.len() != 3 || ops.len() < 2 {
+        return;
+    }
+    let kind = head[1];
+    let res = parts(r);
+    if res.len() != ops.len() {
+        return;
+    }
+    let mut clean_so_far = true;
+    let mut judged = 0;
+    for (k, o) in ops.iter().enumerate() {
+        let is_call = o.name == "call" || o.name == "typed";
+        if k > 0 && is_call && clean_so_far && judged < 3 {
+            // the op itself may be anything (faults, budgets, write scripts): only its past matters
+            let (tid, unit) = expected_hdr(&head, &ops, k);
+            if tid <= 300 {
+                let mut fresh = format!("cli {kind} {}", hex8(unit));
+                for _ in 0..tid {
+                    fresh.push_str(" | call RSI r=e");
+                }
+                if kind == "rtu" {
+                    // (no transaction ids over RTU: nothing to age)
+                }
+                let this_op = l.split(" | ").nth(k + 1).unwrap_or("");
+                // leftover events appended to the last op belong to nobody
+                fresh.push_str(" | ");
+                fresh.push_str(this_op);
+                let (_, r2) = crate::run::run_line(&fresh);
+                let last = r2.rsplit(" | ").next().unwrap_or("");
+                let here = res[k];
+                // shutdown counters etc. are part of the rendered result; compare as rendered
+                let same = last == here || (k + 1 == ops.len() && outcome_of(last) == outcome_of(here) && written(last) == written(here));
+                out.check(same, || format!("call {k} returns `{}` in this history but `{}` on a fresh client that has made the same number of calls", super::codec::trunc(here), super::codec::trunc(last)), l);
+                judged += 1;
+            }
+        }
+        // does this op leave the client as a completed exchange on an open transport would?
+        match o.name {
+            "slave" => {}
+            "call" | "typed" => {
+                let evs = field("r", &o.fields);
+                let closed = evs.split(',').any(|e| e == "e" || e == "E");
+                let outcome = outcome_of(res[k]);
+                if !o.fields.iter().all(|f| f.starts_with("r=")) || closed || outcome == "blocked" || outcome == "abandoned" {
+                    clean_so_far = false;
+                }
+            }
+            _ => clean_so_far = false,
+        }
+    }
+}
+
 // ================================================================ C06
 
 pub fn gen_c06(out: &mut Out, rng: &mut Rng, thorough: bool) {
